@@ -2,6 +2,8 @@ package c14
 
 import (
 	"strconv"
+
+	"pgregory.net/rapid"
 )
 
 // Wa `int` is 32 bits wide: bitSize 0 means 32 on the Wa side, so the Go side
@@ -127,4 +129,41 @@ func init() {
 		v, err := strconv.Unquote(strconv.Quote(a.Str(0)))
 		return R(v == a.Str(0) && err == nil)
 	}).T("v, err := strconv.Unquote(strconv.Quote($0))\nr0 := v == $0 && err == nil")
+}
+
+// printBits packs (IsPrint, IsGraphic) of the 4096 runes of block blk, 2 bits
+// per rune, 2 runes per hex digit... as 2048 characters '0'..'f'.
+func printBits(blk int) string {
+	const d = "0123456789abcdef"
+	b := make([]byte, 2048)
+	for i := 0; i < 2048; i++ {
+		v := 0
+		for k := 0; k < 2; k++ {
+			r := rune(blk*4096 + i*2 + k)
+			if strconv.IsPrint(r) {
+				v |= 1 << uint(2*k)
+			}
+			if strconv.IsGraphic(r) {
+				v |= 2 << uint(2*k)
+			}
+		}
+		b[i] = d[v]
+	}
+	return string(b)
+}
+
+const numPrintBlocks = 0x111 // runes 0 .. 0x110FFF: all of Unicode plus one block above MaxRune
+
+func init() {
+	setGroup("strconv-quote")
+	kinds["blk"] = &kind{wa: "int", gen: func(g *genCtx) string {
+		return encI(int64(rapid.IntRange(0, numPrintBlocks-1).Draw(g.t, "blk")))
+	}, classes: func(v string, _ A, _ *fn) []string {
+		if (A{v}).Int(0) >= 16 {
+			return []string{"block-above-BMP"}
+		}
+		return []string{"block-BMP"}
+	}}
+	reg("strconv", "IsPrint+IsGraphic#block4096", "blk:blk", "text", func(a A) []interface{} { return R(textRes(printBits(a.Int(0)))) }).
+		T("const d = \"0123456789abcdef\"\nb := make([]byte, 2048)\nfor i := 0; i < 2048; i++ {\n\tv := 0\n\tfor k := 0; k < 2; k++ {\n\t\tr := rune($0*4096 + i*2 + k)\n\t\tif strconv.IsPrint(r) {\n\t\t\tv |= 1 << uint(2*k)\n\t\t}\n\t\tif strconv.IsGraphic(r) {\n\t\t\tv |= 2 << uint(2*k)\n\t\t}\n\t}\n\tb[i] = d[v]\n}\nr0 := string(b)")
 }
